@@ -381,6 +381,34 @@ def salted_leaf(i):
     return T.Script.from_src('\n'.join(lines) + '\npush ~! { push d6 random } pop0')
 
 
+def deep_loop_case(ctx, case):
+    """a leaf whose script loops close to the limit gives its own verdict at every depth of the tree (the loop limit does not
+    shrink with the number of tree levels above the leaf)"""
+    iters, depth = case
+    body = P(b'\xff') + op('ADD_INTS') + b'\x02'
+    loop_leaf = P(bytes([iters])) + op('LOOP') + len(body).to_bytes(2, 'big') + body + op('POP0') + op('TRUE')
+    # counter n on the stack: loop body adds -1 until it is zero (false), then the counter is dropped
+    leaf = T.ScriptLeaf.from_code(loop_leaf)
+    node = leaf
+    for i in range(depth):
+        other = T.ScriptLeaf.from_code(leaf_script(i))
+        node = T.ScriptNode(other, node) if i % 2 == 0 else T.ScriptNode(node, other)
+    if depth == 0:
+        scripts = [loop_leaf]
+    else:
+        scripts = [leaf.unlocking_script().bytes, node.locking_script().bytes]
+    v, log = run_auth(scripts)
+    own, _ = run_auth([loop_leaf])
+    rv, _ = ref_run(scripts)
+    ctx.ran(3)
+    ctx.trans(depth + 1)
+    ctx.state(('deep-loop', iters, depth))
+    ctx.outcome('deeploop:%s' % v)
+    if v is not own or (type(rv) is bool and rv is not v):
+        ctx.violation({'clause': 'the verdict is the leaf script\'s own verdict', 'leaf': 'loop near the limit'},
+                      f'{iters} iterations at depth {depth}: in the tree {v!r}, alone {own!r}, reference {rv!r}')
+
+
 def builder_case(ctx, n):
     cnt = 0
     srcs = lambda: [T.Script.from_bytes(leaf_script(i)) for i in range(n)]
@@ -487,6 +515,8 @@ def blocks(tier, seed):
         Block('all_tree_shapes', cases, shape_case,
               'all binary tree shapes with 2..%d leaves (%d shapes), every leaf; every proof corruption for shapes <= %d leaves'
               % (nmax, len(cases), cmax), nshards=min(len(cases), 128)),
+        Block('deep_loop_leaf', [(it, d) for it in (1, 100, 120, 124, 125, 126, 127) for d in range(0, 9)], deep_loop_case,
+              'leaf looping {1,100,120,124..127} times x depth 0..8 of a comb tree', nshards=32),
         Block('leaf_sizes', [(sz, n, pos) for sz in LEAF_SIZES for n in (1, 2, 3) for pos in range(n)], leaf_size_case,
               'leaf script lengths %s x trees of 1..3 leaves x position, through the tree classes and both builders' % (LEAF_SIZES,), nshards=32),
         Block('builders', list(range(1, bmax + 1)), builder_case,
